@@ -212,6 +212,14 @@ def scan_rules(ctx: Ctx, rule: str):
                "after a placement the next readiness scan can run before the completed containers are marked scheduled: a task that "
                "depends on a container is passed over although it is ready, and lower-priority tasks are placed first",
                key=key_of(rule, ss, None, "roll-up before rescan"))
+    # ... and before the FIRST readiness test: containers that are complete from the start (dated milestones) count
+    for d in ready_nodes:
+        ok = g.all_paths_pass(g.entry, d, rolls)
+        ctx.ob(rule, f"{ss.qual}: containers are rolled up before the first readiness test", (ss, d.ast), ok,
+               "every path from the function entry to readyForScheduling() passes _updateContainerTaskStatus()" if ok else
+               "the first readiness scan runs before any roll-up: a task that depends on a container whose children were all placed by "
+               "the milestone pre-pass is never ready (reported as a deadlock)",
+               key=key_of(rule, ss, None, "roll-up before first scan"))
     # removal
     rem = [c for c in own_nodes(ss) if isinstance(c, ast.Call) and isinstance(c.func, ast.Attribute) and c.func.attr == "remove"
            and norm(c.func.value) == "tasks"]
@@ -250,6 +258,21 @@ def cursor_rules(ctx: Ctx, rule: str):
            "cursor moves by +1 forward / -1 backward, once per visited slot" if ok else
            "the slot cursor is not advanced by exactly one slot in the scheduling direction",
            key=f"{rule}|schedule|stride")
+    # the intra-slot offset of the dependency bound belongs to the slot the walk began in: once the cursor moves on, it is cleared
+    gsc = cfg_of(sched)
+    if ok:
+        stepn = gsc.node_of(writes[0])
+        hdr = gsc.node_of(w)
+
+        def clears(n):
+            return n.kind == "stmt" and isinstance(n.ast, ast.Assign) and norm(n.ast.targets[0]) == "self.slotStartOffset" \
+                and isinstance(n.ast.value, ast.Constant) and n.ast.value.value in (0, 0.0)
+        okc = gsc.all_paths_pass(stepn, hdr, clears)
+        ctx.ob(rule, f"{sched.qual}: start offset cleared when the cursor leaves the slot of the bound", (sched, writes[0]), okc,
+               "self.slotStartOffset = 0 on every path from the cursor step to the next scheduleSlot()" if okc else
+               "the mid-slot offset of the dependency bound stays set after the cursor moved on: it is applied to the first slot that can be "
+               "booked (next morning), so the task starts late and leaves working time of its resource idle",
+               key=f"{rule}|schedule|offset cleared")
     # nobody else writes the cursor while a task is being walked
     others = []
     for fn in ctx.cg.reach([slot]):
